@@ -57,6 +57,8 @@ SUBMISSIONS = {
 # instructor scripts
 # ------------------------------------------------------------------------------------------------------------
 SCRIPTS = {
+    'pools-override': "from pedal import *\nfrom pedal.core.feedback import Feedback\nfrom pedal.core.commands import set_pools\nset_pools(['A'])\nFeedback.override_for_pool('A', message='Message of pool A', title='Pool A')\nassert_equal(call('add', 1, 2), 3)\n",
+    'pools-two': "from pedal import *\nfrom pedal.sandbox.feedbacks import runtime_error\nfrom pedal.core.commands import set_pools\nset_pools(2)\nruntime_error.override_for_pool(['A', 'B'], muted=True)\nassert_equal(call('add', 2, 2), 4)\n",
     'checks-library-values': "from pedal import *\nassert_equal(evaluate('round(math.pi, 3)'), 3.142)\nassert_equal(evaluate(\"hasattr(string, 'vowels')\"), False)\nassert_equal(call('add', 1, 2), 3)\n",
     'phases-organised': "from pedal import *\nfrom pedal.assertions.organizers import phase\n\n@phase('defined')\ndef check_defined():\n    ensure_function('add', 2)\n\n"
                         "@phase('works', after='defined')\ndef check_works():\n    assert_equal(call('add', 1, 2), 3)\n    assert_equal(call('add', 2, 2), 4)\n",
@@ -116,6 +118,8 @@ DESIGNED_PAIRS = [
     [('phases-then-crash', 'wrong'), ('phases-other-names', 'good'), ('phases-organised', 'good')],
     [('phases-organised', 'good'), ('phases-other-names', 'prints-a-lot'), ('phases-organised', 'wrong')],
     [('clears-report-midway', 'good'), ('plain-assert', 'crash')],
+    [('pools-override', 'wrong'), ('plain-assert', 'wrong'), ('plain-assert', 'crash')],
+    [('pools-two', 'crash'), ('plain-assert', 'crash'), ('static-checks', 'name-error')],
     [('clears-report-and-suppresses', 'crash'), ('plain-assert', 'crash'), ('plain-assert', 'syntax')],
 ]
 
